@@ -42,11 +42,8 @@ def init (bbox : Rect) (gridsize : Int) : Plane :=
 
 /-- `Plane._getrange`: the grid cells a box is filed under / looked up in. -/
 def getrange (p : Plane) (bbox : Rect) : List Key :=
-  let (x0, y0, x1, y1) := bbox
-  let x0 := min (max p.x0 x0) p.x1
-  let y0 := min (max p.y0 y0) p.y1
-  let x1 := max (min p.x1 x1) p.x0
-  let y1 := max (min p.y1 y1) p.y0
+  -- the clamping to the plane bounds is the regenerated `plane_clamp` (body of `Plane._granges`)
+  let (x0, y0, x1, y1) := plane_clamp p.x0 p.y0 p.x1 p.y1 bbox
   (drange y0 y1 p.gridsize).flatMap fun gy =>
     (drange x0 x1 p.gridsize).map fun gx => (gx, gy)
 
@@ -72,7 +69,10 @@ def cellCount (p : Plane) (bbox : Rect) : Nat :=
 
 /-- `Plane._cells`: the cells of a box, or `none` when there are more than `MAXCELLS`. -/
 def cells? (p : Plane) (bbox : Rect) : Option (List Key) :=
-  if PLANE_MAXCELLS < cellCount p bbox then none else some (getrange p bbox)
+  -- `nx`, `ny` and the comparison with `MAXCELLS` are the regenerated `plane_cells_over`
+  let (x0, y0, x1, y1) := plane_clamp p.x0 p.y0 p.x1 p.y1 bbox
+  if plane_cells_over (rStart x0 p.gridsize) (rStop x1 p.gridsize) (rStart y0 p.gridsize) (rStop y1 p.gridsize)
+  then none else some (getrange p bbox)
 
 /-- `Plane.add`: an object covering more than `MAXCELLS` cells goes to `_big`, the others into the grid. -/
 def add (p : Plane) (o : PObj) : Plane :=
@@ -96,8 +96,8 @@ def remove (p : Plane) (o : PObj) : Plane × Bool :=
 
 /-- The overlap test at the end of `Plane.find` (negated `continue` condition). -/
 def overlaps (o : PObj) (q : Rect) : Bool :=
-  let (x0, y0, x1, y1) := q
-  !(decide (o.x1 ≤ x0) || decide (x1 ≤ o.x0) || decide (o.y1 ≤ y0) || decide (y1 ≤ o.y0))
+  -- the regenerated `continue` condition of `Plane.find`
+  !(plane_find_skip o.x0 o.y0 o.x1 o.y1 q)
 
 /-- First-occurrence de-duplication (the `done` set of `find`). -/
 def dedup : List PObj → List PObj
